@@ -1,5 +1,10 @@
 import WhVerif.Lemmas.C15
 import WhVerif.Lemmas.C15Blocks
+import WhVerif.Lemmas.C15Glue
+import WhVerif.Lemmas.C15Solve
+import WhVerif.Lemmas.C15Writer
+import WhVerif.Lemmas.C15Bps
+import WhVerif.Lemmas.C15Assign
 /-!
 # C15 — polyphase output obeys the input genotypes and forms contiguous blocks
 
@@ -274,5 +279,331 @@ example :
     (computeCutPositions exArith bps 2 4).1 = [0, 2] ∧
     ([0, 1, 2, 3].map fun p => dictGet (componentWrites [10, 11, 20, 30] 4 [0, 2]) ([10, 11, 20, 30].getD p 0))
       = [some 10, some 10, some 20, some 20] := by decide
+
+/-! ## the glue of `run_polyphase` / `phase_single_individual` around the solver (`Model/C15Glue.lean`) -/
+
+/-- The variant table `VcfReader` builds from the records of a chromosome has strictly increasing positions (so a
+position identifies a row), consists of input records the reader does not skip, and every non-missing genotype in
+it has `ploidy` alleles. -/
+theorem table_positions_strictly_increasing (c : Cfg) (recs table : List VRec) (h : readTable c recs = .ok table) :
+    (table.map (·.pos)).Pairwise (· < ·) ∧
+    ∀ r ∈ table, r ∈ recs ∧ readerSkips c r = false ∧ (r.gt = [] ∨ r.gt.length = c.ploidy) := by
+  obtain ⟨h1, h2⟩ := readLoop_spec c recs none table h
+  exact ⟨h1, fun r hr => (h2 r hr).2⟩
+
+def exCfg : Cfg := ⟨2, true, false, 16, 15, 2⟩
+/-- records at 10, 20, 20 (duplicate), 30 (no ALT), 40 (homozygous), 50 -/
+def exRecs : List VRec :=
+  [⟨10, 1, true, true, [0, 1], false⟩, ⟨20, 2, true, true, [2, 1], false⟩, ⟨20, 1, true, true, [0, 1], false⟩,
+   ⟨30, 0, true, true, [0, 1], false⟩, ⟨40, 1, true, true, [1, 1], false⟩, ⟨50, 1, true, true, [1, 0], false⟩]
+example : (readTable exCfg exRecs).toOption.map (·.map (·.pos)) = some [10, 20, 40, 50] := by decide
+
+/-- **Alignment invariant.**  Whatever the records and whatever the reads (as long as the BAM reader reports
+alleles only at positions of the variants it was asked for): if the glue reaches the solver call, the genotype list
+has exactly one entry per allele-matrix column, the columns are strictly increasing, and entry `i` is the count
+dictionary of the input genotype of *the* table row at column `i`'s position — a heterozygous, non-skipped input
+record with `ploidy` alleles.  This covers variants covered only by discarded reads (they are in no column and in no
+entry), and the two early exits (fewer than two heterozygous variants, no read left) never reach the solver. -/
+theorem genotype_list_aligned (c : Cfg) (recs table : List VRec) (hread : readTable c recs = .ok table)
+    (reads : List PRead) (hreads : ∀ r ∈ reads, ∀ v ∈ r, v.1 ∈ (phasable table).map (·.pos))
+    (cols : List Nat) (rows : List VRec) (gl : List (List (Allele × Nat))) (kept : List PRead)
+    (hglue : glue c table reads = .solve cols rows gl kept) :
+    gl.length = cols.length ∧ cols.Pairwise (· < ·) ∧ cols = readPositions kept ∧ rows.map (·.pos) = cols ∧
+    gl = genotypeList rows ∧
+    ∀ i (hi : i < cols.length), ∃ r ∈ recs, r ∈ table ∧ r.pos = cols[i] ∧ isHet r.gt = true ∧
+      r.gt.length = c.ploidy ∧ readerSkips c r = false ∧ (∀ r' ∈ table, r'.pos = cols[i] → r' = r) ∧
+      rows[i]? = some r ∧ ∀ a, dictCount (gl.getD i []) a = r.gt.count a := by
+  obtain ⟨hts, htm⟩ := table_positions_strictly_increasing c recs table hread
+  unfold glue at hglue
+  simp only at hglue
+  split at hglue
+  · cases hglue
+  · split at hglue
+    · cases hglue
+    · cases hglue
+      have hhet : ((hetRows table).map (·.pos)).Pairwise (· < ·) := filter_pos_sorted _ table hts
+      have hps : (readPositions (keepReads c.minOverlap reads)).Pairwise (· < ·) := posSet_sorted _
+      have hsub : ∀ p ∈ readPositions (keepReads c.minOverlap reads), p ∈ (hetRows table).map (·.pos) := by
+        intro p hp
+        simp only [readPositions, mem_posSet, List.mem_flatMap] at hp
+        obtain ⟨r, hr, hp⟩ := hp
+        obtain ⟨v, hv, rfl⟩ := List.mem_map.mp hp
+        exact hreads r (List.mem_filter.mp hr).1 v hv
+      have hpos := subsetRows_positions _ _ hhet hps hsub
+      refine ⟨?_, hps, rfl, hpos, rfl, ?_⟩
+      · have := congrArg List.length hpos
+        simpa [genotypeList] using this
+      · intro i hi
+        have hlen : (subsetRows (readPositions (keepReads c.minOverlap reads)) (hetRows table)).length
+            = (readPositions (keepReads c.minOverlap reads)).length := by
+          have := congrArg List.length hpos
+          simpa using this
+        have hi' : i < (subsetRows (readPositions (keepReads c.minOverlap reads)) (hetRows table)).length := by
+          rw [hlen]; exact hi
+        let r := (subsetRows (readPositions (keepReads c.minOverlap reads)) (hetRows table))[i]
+        have hr1 : r ∈ hetRows table := (List.mem_filter.mp (List.getElem_mem hi')).1
+        have hr2 : r ∈ table := (List.mem_filter.mp hr1).1
+        have hr3 : isHet r.gt = true := (List.mem_filter.mp hr1).2
+        have hrp : r.pos = (readPositions (keepReads c.minOverlap reads))[i] := by
+          have := congrArg (fun l => l[i]?) hpos
+          simp only [List.getElem?_map, hi', List.getElem?_eq_getElem, hi, Option.map_some] at this
+          exact Option.some.inj this
+        have hne : r.gt ≠ [] := by intro h; rw [h] at hr3; simp [isHet] at hr3
+        refine ⟨r, (htm r hr2).1, hr2, hrp, hr3, ?_, (htm r hr2).2.1, ?_, ?_, ?_⟩
+        · rcases (htm r hr2).2.2 with h | h
+          · exact absurd h hne
+          · exact h
+        · intro r' hr' hp'
+          exact row_unique table hts r' r hr' hr2 (hp'.trans hrp.symm)
+        · simp [r, hi']
+        · intro a
+          have : (genotypeList (subsetRows (readPositions (keepReads c.minOverlap reads)) (hetRows table))).getD i []
+              = genotypeDict r.gt := by
+            simp [genotypeList, List.getD_eq_getElem?_getD, hi', r]
+          rw [this, dictCount_genotypeDict]
+
+/-- reads: one covering 10 and 20, one covering only 50 (discarded: fewer than two variants), one covering 20 and 50 -/
+def exReads : List PRead := [[(10, 0), (20, 1)], [(50, 1)], [(20, 0), (50, 0)]]
+example : (match glue exCfg [exRecs[0]!, exRecs[1]!, exRecs[4]!, exRecs[5]!] exReads with
+    | .solve cols _ gl _ => (cols, gl) | _ => ([], [])) = ([10, 20, 50], [[(1, 1), (0, 1)], [(2, 1), (1, 1)], [(1, 1), (0, 1)]]) := by
+  decide
+
+/-- `ReadSet.sort()` (any reordering of the reads) does not change the columns, the table subset or the genotype
+list: only the reads themselves come in another order. -/
+theorem glue_independent_of_read_order (c : Cfg) (table : List VRec) (r1 r2 : List PRead) (h : r1.Perm r2)
+    (cols : List Nat) (rows : List VRec) (gl : List (List (Allele × Nat))) (k1 : List PRead)
+    (hglue : glue c table r1 = .solve cols rows gl k1) :
+    ∃ k2, glue c table r2 = .solve cols rows gl k2 ∧ k1.Perm k2 := by
+  have hk : (keepReads c.minOverlap r1).Perm (keepReads c.minOverlap r2) := h.filter _
+  have hp := readPositions_perm _ _ hk
+  unfold glue at hglue ⊢
+  simp only at hglue ⊢
+  split at hglue
+  · cases hglue
+  · rename_i hlen
+    simp only [hlen, if_false]
+    split at hglue
+    · cases hglue
+    · rename_i hne
+      have hne2 : (keepReads c.minOverlap r2).isEmpty = false := by
+        cases h2 : keepReads c.minOverlap r2 with
+        | nil => rw [h2] at hk; simp [hk.eq_nil] at hne
+        | cons x xs => rfl
+      cases hglue
+      simp only [hne2, Bool.false_eq_true, if_false]
+      exact ⟨_, by rw [hp], hk⟩
+
+example : readPositions exReads = readPositions exReads.reverse := readPositions_perm _ _ (List.reverse_perm _).symm
+
+/-! ## what the solver does with the genotype list (`Model/C15Solve.lean`) -/
+
+/-- The block starts of `compute_block_starts` (whatever the merged-cluster labels are): first start 0, strictly
+increasing, inside the variants — so the blocks `zip(block_starts[:-1], block_starts[1:])` partition the columns. -/
+theorem block_starts_wellformed (labels : List Nat) (hne : labels ≠ []) :
+    (blockStartsOfLabels labels).head? = some 0 ∧ (blockStartsOfLabels labels).Pairwise (· < ·) ∧
+    ∀ x ∈ blockStartsOfLabels labels, x < labels.length :=
+  blockStartsOfLabels_spec labels hne
+
+example : blockStartsOfLabels [0, 0, 1, 1, 1, 0, 2] = [0, 2, 5, 6] := by decide
+
+/-- `solve_polyphase_instance` indexes the genotype list by allele-matrix column: the slices
+`genotype_list[start:end]` handed to the blocks, concatenated in block order (as `aggregate_results` concatenates the
+haplotypes), are the genotype list itself — for every well-formed list of block starts. -/
+theorem block_genotype_slices_cover {α} (gl : List α) (starts : List Nat) (h0 : starts.head? = some 0)
+    (hs : starts.Pairwise (· < ·)) (hr : ∀ s ∈ starts, s < gl.length) :
+    ((blocks starts gl.length).map (slice gl)).flatten = gl :=
+  blocks_cover gl starts h0 hs hr
+
+example : (blocks [0, 2, 5] 6).map (slice [10, 11, 12, 13, 14, 15]) = [[10, 11], [12, 13, 14], [15]] := by decide
+
+/-- Every column `solve_polyphase_instance` can return for a genotype (one-variant block; or arbitrary threading,
+`force_genotypes`, sub-instance write-backs of recursively solved sub-genotypes, `permute_blocks`) that has no
+undetermined allele lists exactly the alleles of that genotype with their multiplicities. -/
+theorem solved_column_obeys_genotype (n : Nat) (gv out : List Allele) (h : SolvedN n gv out)
+    (hdet : (-1 : Allele) ∉ out) : out.Perm gv := by
+  rcases solvedN_good n gv out h with h | h
+  · exact absurd h hdet
+  · exact h
+
+/-- non-vacuity: genotype 0/1/1/2, threaded as 0,0,0,2, forced to 0,1,1,2 (slots 0..2), the sub-instance on the
+threads {1,2} returns its two alleles swapped (nothing to swap here: both 1), haplotypes permuted by [3,0,1,2] -/
+example : SolvedN 1 [0, 1, 1, 2] [2, 0, 1, 1] := by
+  refine Or.inr ⟨[0, 0, 0, 2], [0, 1, 1, 2], [0, 1, 1, 2], [3, 0, 1, 2], rfl, ?_, ?_, by decide, by decide⟩
+  · show ForceOut [0, 0, 0, 2] [0, 1, 1, 2] [0, 1, 1, 2]
+    have hfs : forceStep [0, 0, 0, 2] [0, 1, 1, 2] = .choose [0, 1, 2] [0, 1, 1] := by
+      unfold forceStep; simp only [show ([0, 0, 0, 2] : List Allele).contains (-1) = false by decide]
+      have ha : affected [0, 0, 0, 2] [0, 1, 1, 2] = [0, 1, 2] := by decide
+      have hi : toInsert [0, 0, 0, 2] [0, 1, 1, 2] = [0, 1, 1] := by
+        unfold toInsert; simp [alleles, dedup, insertFor, List.mergeSort]
+      simp [ha, hi]
+    unfold ForceOut; rw [hfs]
+    exact ⟨[0, 1, 1], List.Perm.refl _, by decide⟩
+  · exact .step [] [1, 2] [0, 1, 1, 2] [1, 1] [0, 1, 1, 2] (by decide) (by decide) (by simp) rfl
+      (by show SolvedN 0 (extractPerm [1, 2] [0, 1, 1, 2]) [1, 1]
+          simp only [SolvedN]; decide)
+      (by have : assign [0, 1, 1, 2] [1, 2] [1, 1] = [0, 1, 1, 2] := by decide
+          rw [this]; exact .done _ _)
+
+/-- **End to end.**  One chromosome, one sample of `whatshap polyphase` (genotypes trusted, writer as repaired by
+F50): let `recs` be the records, `reads` what the BAM reader returned for the heterozygous variants, and `haps` any
+columns the solver can return for the genotype list it was given (`haps[i]` solved for `genotype_list[i]`,
+everything heuristic quantified away), `comps` any component dictionary.  Then the writer returns one call per
+record, **every** call lists exactly the alleles of the input genotype with their multiplicities, and a call comes
+out phased only if the record is a heterozygous, non-skipped row of the variant table at a read-covered position. -/
+theorem polyphase_output_obeys_input_genotypes (c : Cfg) (recs table : List VRec)
+    (hread : readTable c recs = .ok table)
+    (reads : List PRead) (hreads : ∀ r ∈ reads, ∀ v ∈ r, v.1 ∈ (phasable table).map (·.pos))
+    (cols : List Nat) (rows : List VRec) (gl : List (List (Allele × Nat))) (kept : List PRead)
+    (hglue : glue c table reads = .solve cols rows gl kept)
+    (n : Nat) (haps : List (List Allele))
+    (hsolved : ∀ i (h1 : i < gl.length) (h2 : i < haps.length), SolvedN n (dictExpand gl[i]) haps[i])
+    (comps : Nat → Option Nat) :
+    let out := writeLoop true c (phasesOf c.mav cols haps) comps none recs
+    out.length = recs.length ∧
+    ∀ j (h1 : j < recs.length) (h2 : j < out.length),
+      (∀ a, out[j].gt.count a = recs[j].gt.count a) ∧
+      (out[j].phased = true → isHet recs[j].gt = true ∧ readerSkips c recs[j] = false ∧ recs[j] ∈ table ∧
+        recs[j].pos ∈ cols ∧ (-1 : Allele) ∉ out[j].gt) := by
+  intro out
+  obtain ⟨hgl, _, _, hpos, hgle, hal⟩ := genotype_list_aligned c recs table hread reads hreads cols rows gl kept hglue
+  have hgood : ∀ r ∈ table, ∀ p, lookupPhase (phasesOf c.mav cols haps) r.pos = some p →
+      isHet r.gt = true ∧ p.Perm r.gt := by
+    intro r hr p hl
+    obtain ⟨i, h1, h2, hci, hpi, hdet⟩ := lookup_phasesOf c.mav cols haps r.pos p hl
+    obtain ⟨r0, _, _, hr0p, hhet, _, _, huniq, hrow, hcnt⟩ := hal i h1
+    have he : r = r0 := huniq r hr (hci.symm ▸ rfl)
+    subst he
+    refine ⟨hhet, ?_⟩
+    have hi : i < gl.length := hgl ▸ h1
+    have hs := hsolved i hi h2
+    rw [hpi] at hs
+    have hp := solved_column_obeys_genotype n _ p hs hdet
+    have hgi : gl[i] = genotypeDict r.gt := by
+      subst hgle
+      have hri : i < rows.length := by simpa [genotypeList] using hi
+      have : rows[i] = r := by
+        have := hrow; rw [List.getElem?_eq_getElem hri] at this; exact Option.some.inj this
+      simp [genotypeList, this]
+    rw [hgi] at hp
+    exact hp.trans (List.perm_iff_count.mpr (count_dictExpand_genotypeDict r.gt))
+  have hall := writeLoop_ok c (phasesOf c.mav cols haps) comps table recs none none table hread
+    (fun _ h => h) (by simp) hgood
+  have hlen : out.length = recs.length := hall.length_eq.symm
+  refine ⟨hlen, ?_⟩
+  intro j h1 h2
+  obtain ⟨hc, hp⟩ := hall.get j h1 h2
+  refine ⟨hc, fun hph => ?_⟩
+  obtain ⟨a, b, d, e⟩ := hp hph
+  obtain ⟨i, hi1, _, hci, hpi, hdet⟩ := lookup_phasesOf c.mav cols haps _ _ e
+  exact ⟨a, b, d, hci ▸ List.getElem_mem hi1, hdet⟩
+
+/-- non-vacuity of the end-to-end statement on the example records: the solver returns 1|0, 1|2, 0|1 for the three
+columns; the output phases the first record at 20 (the multi-allelic one the reader accepted), not its duplicate -/
+example :
+    (writeLoop true exCfg (phasesOf true [10, 20, 50] [[1, 0], [1, 2], [0, 1]]) (fun _ => some 10) none exRecs).map
+      (fun o => (o.gt, o.phased)) =
+    [([1, 0], true), ([1, 2], true), ([0, 1], false), ([0, 1], false), ([1, 1], false), ([0, 1], true)] := by
+  decide
+
+/-- F50 (the writer as coded before the repair): with `--only-snvs`, the record `A→C,AT` at 68 is skipped by the
+reader (not all alternative alleles are SNVs) but not by the writer (its first one is); the phase found for
+position 68 belongs to the *second* record at 68, and the writer gives it to the first one: genotype `1/2` comes out
+as `1|0`.  With the repaired writer the first record stays as it is and the second one is phased. -/
+example :
+    let cfg : Cfg := ⟨2, true, true, 16, 15, 2⟩
+    let recs : List VRec := [⟨27, 1, true, true, [0, 1], false⟩, ⟨68, 2, false, true, [1, 2], false⟩,
+                             ⟨68, 1, true, true, [0, 1], false⟩]
+    let ph := phasesOf true [27, 68] [[0, 1], [1, 0]]
+    (readTable cfg recs).toOption.map (·.map (·.gt)) = some [[0, 1], [0, 1]] ∧
+    (writeLoop false cfg ph (fun _ => some 27) none recs).map (fun o => (o.gt, o.phased))
+      = [([0, 1], true), ([1, 0], true), ([0, 1], false)] ∧
+    (writeLoop true cfg ph (fun _ => some 27) none recs).map (fun o => (o.gt, o.phased))
+      = [([0, 1], true), ([1, 2], false), ([1, 0], true)] := by
+  decide
+
+/-! ## where the breakpoints come from, and phase sets end to end -/
+
+/-- The breakpoints a block result carries (`integrate_sub_results`: `find_breakpoints` of the thread matrix plus the
+mapped breakpoints of the sub-instances, sorted by position, duplicates joined; `run_reordering` afterwards only
+rewrites confidences): strictly increasing positions, all inside the block — provided each sub-instance's
+breakpoints lie inside that sub-instance (the same statement one level down) and its positions inside the block
+(asserted by the code). -/
+theorem block_breakpoints_wellformed {C} (zero : C) (mul : C → C → C) (threads : List (List Nat))
+    (subs : List (List Nat × List Nat × List (Breakpoint C)))
+    (hsnps : ∀ s ∈ subs, ∀ p ∈ s.1, p < threads.length)
+    (hsub : ∀ s ∈ subs, ∀ b ∈ s.2.2, b.position < s.1.length) :
+    (integrateBreakpoints zero mul threads subs).Pairwise (fun a b => a.position < b.position) ∧
+    ∀ b ∈ integrateBreakpoints zero mul threads subs, b.position < threads.length :=
+  integrateBreakpoints_spec zero mul threads subs hsnps hsub
+
+example : (integrateBreakpoints (0 : Nat) (· * ·) [[0, 0, 1], [0, 2, 1], [0, 2, 1], [3, 3, 1]]
+    [([1, 3], [0, 1], [⟨0, [0, 1], 5⟩, ⟨1, [0, 1], 7⟩])]).map (fun b => (b.position, b.haplotypes, b.confidence))
+    = [(1, [0, 1], 0), (3, [0, 1], 0)] := by decide
+
+/-- `aggregate_results`: if every block result has at least one column and breakpoints sorted by position inside the
+block, the aggregated list starts with `(0, all haplotypes, 0.0)`, is sorted by position, and every position lies
+inside the `totalCols` columns of the aggregate — exactly the hypotheses of `components_are_intervals`. -/
+theorem aggregate_breakpoints_wellformed {C} (zero : C) (ploidy : Nat) (borders : List Nat)
+    (r : BlockBps C) (rs : List (BlockBps C))
+    (h : ∀ x ∈ r :: rs, 0 < x.ncols ∧ x.bps.Pairwise (fun a b => a.position ≤ b.position) ∧
+      ∀ b ∈ x.bps, b.position < x.ncols) :
+    (∃ rest, aggregateBps zero ploidy borders 0 (r :: rs) = ⟨0, List.range ploidy, zero⟩ :: rest) ∧
+    (aggregateBps zero ploidy borders 0 (r :: rs)).Pairwise (fun a b => a.position ≤ b.position) ∧
+    ∀ b ∈ aggregateBps zero ploidy borders 0 (r :: rs), b.position < totalCols (r :: rs) := by
+  obtain ⟨h1, h2⟩ := aggregateBps_spec zero ploidy borders (r :: rs) 0 h
+  exact ⟨aggregateBps_head zero ploidy borders r rs, h1, fun b hb => by have := (h2 b hb).2; omega⟩
+
+example : (aggregateBps (0 : Nat) 2 [] 0 [⟨2, [⟨1, [0, 1], 50⟩]⟩, ⟨1, []⟩, ⟨3, [⟨0, [0, 1], 30⟩, ⟨2, [0, 1], 90⟩]⟩]).map
+    (fun b => (b.position, b.confidence)) = [(0, 0), (1, 50), (2, 0), (3, 0), (3, 30), (5, 90)] := by decide
+
+/-- **Phase sets end to end from the block results.**  For any block results as above, any sensitivity and float
+arithmetic (with `0.0 == 0.0`), and the strictly increasing accessible positions `acc` (one per column): the cut
+list computed from the aggregated breakpoints is strictly increasing and starts with 0, every accessible position
+is mapped to the accessible position at the greatest cut below it, names are contiguous, and each set is named by
+its first position. -/
+theorem phase_sets_are_intervals_from_blocks {C L} (A : ConfArith C L) (zero : C) (hzero : A.isZero zero = true)
+    (ploidy B : Nat) (borders : List Nat) (r : BlockBps C) (rs : List (BlockBps C))
+    (h : ∀ x ∈ r :: rs, 0 < x.ncols ∧ x.bps.Pairwise (fun a b => a.position ≤ b.position) ∧
+      ∀ b ∈ x.bps, b.position < x.ncols)
+    (acc : List Nat) (hlen : acc.length = totalCols (r :: rs)) (hacc : acc.Pairwise (fun a b => a < b)) :
+    let cuts := (computeCutPositions A (aggregateBps zero ploidy borders 0 (r :: rs)) ploidy B).1
+    let comp := fun p => dictGet (componentWrites acc acc.length cuts) (acc.getD p 0)
+    cuts.Pairwise (fun a b => a < b) ∧ cuts.head? = some 0 ∧
+    (∀ p, p < acc.length →
+      ∃ c ∈ cuts, c ≤ p ∧ (∀ c' ∈ cuts, c' ≤ p → c' ≤ c) ∧ comp p = some (acc.getD c 0)) ∧
+    (∀ p q s, p ≤ q → q ≤ s → s < acc.length → comp p = comp s → comp q = comp p) ∧
+    (∀ p, p < acc.length → ∃ c, c ≤ p ∧ comp p = some (acc.getD c 0) ∧ comp c = some (acc.getD c 0) ∧
+        ∀ q, q < c → comp q ≠ comp p) := by
+  obtain ⟨⟨rest, he⟩, hs, hr⟩ := aggregate_breakpoints_wellformed zero ploidy borders r rs h
+  rw [he] at hs hr ⊢
+  have hr' : ∀ b ∈ (⟨0, List.range ploidy, zero⟩ : Breakpoint C) :: rest, b.position < acc.length :=
+    fun b hb => hlen ▸ hr b hb
+  obtain ⟨a1, a2, a3⟩ := components_are_intervals A ⟨0, List.range ploidy, zero⟩ rest ploidy B acc rfl hzero hs hr' hacc
+  obtain ⟨b1, b2⟩ := components_contiguous_and_named_by_first A ⟨0, List.range ploidy, zero⟩ rest ploidy B acc rfl
+    hzero hs hr' hacc
+  exact ⟨a1, a2, a3, b1, b2⟩
+
+example :
+    let rs : List (BlockBps Nat) := [⟨2, [⟨1, [0, 1], 90⟩]⟩, ⟨2, []⟩]
+    (computeCutPositions exArith (aggregateBps 0 2 [] 0 rs) 2 4).1 = [0, 2] ∧ totalCols rs = 4 := by decide
+
+/-! ## get_optimal_assignments (without pre-phasing affiliations) -/
+
+/-- Whatever relinking is chosen at each breakpoint (a duplicate-free list of haplotype indices `< ploidy`: the
+keys of `lllh[b]` are the permutations of the breakpoint's haplotypes), every block's assignment is a permutation of
+`range(ploidy)` — the hypothesis `hperms` of `reorder_preserves_multiset`. -/
+theorem optimal_assignments_are_permutations (ploidy : Nat) (choices : List (List Nat))
+    (h : ∀ ch ∈ choices, ch.Nodup ∧ ∀ x ∈ ch, x < ploidy) :
+    (optimalAssignments ploidy choices).length = choices.length + 1 ∧
+    ∀ a ∈ optimalAssignments ploidy choices, a.Perm (List.range ploidy) := by
+  refine ⟨?_, assignmentsFrom_perm ploidy choices _ (List.Perm.refl _) h⟩
+  clear h
+  unfold optimalAssignments
+  generalize List.range ploidy = a
+  induction choices generalizing a with
+  | nil => simp [assignmentsFrom]
+  | cons p ps ih => simp [assignmentsFrom, ih]
+
+example : optimalAssignments 4 [[2, 0], [3, 1, 0]] = [[0, 1, 2, 3], [2, 1, 0, 3], [2, 1, 3, 0]] := by decide
 
 end WhVerif.Props.C15
